@@ -200,7 +200,7 @@ func (p *parser) value(inSexp bool) *refmodel.Value {
 			v = p.number()
 		case (c == '+' || c == '-') && p.infAhead():
 			p.pos += 4
-			v = refmodel.FloatV(math.Inf(','-c)) // '+' is 43, '-' is 45: sign +1 / -1
+			v = refmodel.FloatV(math.Inf(',' - c)) // '+' is 43, '-' is 45: sign +1 / -1
 		case isIdentStart(c):
 			start := p.pos
 			id := p.ident()
@@ -619,7 +619,7 @@ func (p *parser) quoted(q byte, clob bool) []byte {
 	}
 }
 
-// longs reads one or more adjacent '''…''' segments and concatenates them.
+// longs reads one or more adjacent triple-quoted segments and concatenates them.
 // Between segments: whitespace and comments (text) or whitespace only (clob).
 func (p *parser) longs(clob bool) []byte {
 	out := []byte{}
